@@ -19,7 +19,7 @@ HERE = os.path.dirname(os.path.dirname(os.path.abspath(__file__)))
 sys.path.insert(0, HERE)
 from selftest.mutants import MUTANTS  # noqa: E402
 
-SCRATCH = "/tmp/da_sens_worktree"
+SCRATCH = f"/tmp/da_sens_worktree_{os.getpid()}"
 
 
 def sh(cmd, **kw):
@@ -38,7 +38,7 @@ def main():
     if r.returncode != 0:
         print(r.stdout)
         return 2
-    replay_dir = "/tmp/da_sens_replays"
+    replay_dir = f"/tmp/da_sens_replays_{os.getpid()}"
     results = []
     try:
         for m in MUTANTS:
